@@ -3,6 +3,7 @@ package authboss
 import (
 	"context"
 	"net/http"
+	"strings"
 
 	"github.com/friendsofgo/errors"
 )
@@ -13,6 +14,29 @@ const (
 	// FollowRedirParam is set to true.
 	FormValueRedirect = "redir"
 )
+
+// IsLocalRedirect reports whether a client supplied redirect target stays on
+// this site when a browser follows it: it must be an absolute path, must not
+// start an authority ("//host", and "/\\host" which browsers treat alike),
+// must not carry a scheme separator and must not contain backslashes or
+// control characters, which browsers strip or rewrite before resolving.
+func IsLocalRedirect(redir string) bool {
+	if len(redir) == 0 || redir[0] != '/' {
+		return false
+	}
+	if len(redir) > 1 && (redir[1] == '/' || redir[1] == '\\') {
+		return false
+	}
+	if strings.Contains(redir, "://") {
+		return false
+	}
+	for i := 0; i < len(redir); i++ {
+		if c := redir[i]; c < 0x20 || c == 0x7f || c == '\\' {
+			return false
+		}
+	}
+	return true
+}
 
 // HTTPResponder knows how to respond to an HTTP request
 // Must consider:
